@@ -321,6 +321,33 @@ fn expand(st: &State, depth: usize, l: &mut Local, out: &mut Vec<State>) {
             }
         }
     }
+    // adding and subtracting a function (another series, a Gaussian bump): same abscissae, ordinates combined
+    {
+        use engeom::func1::{Func1, Gaussian1};
+        let bump = Gaussian1::new(1.0, 0.7);
+        let other = Series1::try_new(vec![-10.0, 0.0, 10.0], vec![1.0, -2.0, 3.0]).ok();
+        let mut fs: Vec<(&str, &dyn Func1)> = vec![("gaussian", &bump)];
+        if let Some(o) = other.as_ref() {
+            fs.push(("series", o));
+        }
+        for (name, g) in fs {
+            l.eval();
+            l.transitions += 2;
+            match (guarded(|| &s + g), guarded(|| &s - g)) {
+                (Ok(a), Ok(b)) => {
+                    let ok = a.x.to_vec() == xs && b.x.to_vec() == xs && xs.iter().enumerate().all(|(i, x)| {
+                        let gv = g.f(*x);
+                        let (ea, eb) = (ys[i] + gv, ys[i] - gv);
+                        (a.y[i] == ea || (a.y[i].is_nan() && ea.is_nan())) && (b.y[i] == eb || (b.y[i].is_nan() && eb.is_nan()))
+                    });
+                    l.check("adding or subtracting a function keeps the abscissae and combines the ordinates", "", ok, mk("add/sub"), || format!("{}: {:?} / {:?}", name, a, b));
+                }
+                (a, b) => {
+                    l.check("adding or subtracting a function keeps the abscissae and combines the ordinates", "panic", false, mk("add/sub"), || format!("{}: {:?} {:?}", name, a.err(), b.err()));
+                }
+            }
+        }
+    }
     for (sx, sy) in [(1.5, -0.5), (0.0, 5.0), (-3.0, 0.0), (0.0, 0.0), (-0.0, 2.0), (1e-300, -0.0)] {
         l.eval();
         l.transitions += 1;
